@@ -55,6 +55,11 @@ CLAIM = dict(
           "choice).  Explicit start positions "
           "are non-negative (documented 0-based index).  A RecursionError of _Tree.add_field (instance values selecting "
           "fields of two children of one node) is modelled as an error and ends the history.  "
+          "Completeness is judged on what the ACCEPTED values require: the oracle evaluates floatingFitsB on the "
+          "implementation's pre-assign tree with max_value replaced by the largest value of any __call__ that returned (1 "
+          "for none); on the unchanged code the two trees are equal (validation first, recording after - the model's "
+          "call leaves the state untouched on error); a rejected call that leaves a trace in max_value is a correspondence "
+          "mismatch and, where the inflated width no longer fits, a complete-floating violation.  "
           "Masks of partially specified instances (get_mask needs no values) are judged by the mask_exact oracle as "
           "well as compared with the model; keys only exist for complete instances.  "
           "HARDENING (what the streams do, and what is left out on purpose): every call may use other argument kinds "
@@ -105,7 +110,11 @@ RULE = ("histories of 6-40 operations generated against the running implementati
         "first+second, ...) is an instance on which get_mask / get_value (no tag, tag) / get_tags / "
         "get_location_and_length are called; for every instance of every history - complete or partially specified - "
         "get_mask() and get_mask(tag) are read back and judged by the Lean mask_exact oracle on the implementation's own "
-        "tree; in 40 % of the histories every call draws its "
+        "tree; plus a reject stream: nothing positioned, nested scopes, "
+        "automatic-length fields, calls REJECTED by a later keyword (negative value, value too large for a fixed-length "
+        "field, unavailable / unknown field) whose EARLIER keywords carry values (100 ... 2^19) larger than anything "
+        "accepted, each history re-run on the bit field exactly tight (or +-1) for the values accepted before the first "
+        "assign_fields; in 40 % of the histories every call draws its "
         "argument kinds and calling convention (recorded in the op), 30 % build the bit field another way (keyword / "
         "default / IntEnum length, subclass); one history in ten is also run interleaved op by op with a twin (one "
         "length / value / tag / position / op / bit-field length changed) or the previous history on a second live bit "
@@ -135,6 +144,14 @@ def dump_tree(tree, path=()):
                     "tags": sorted(f.tags), "max": _i(f.max_value)})
     for key, child in tree.children.items():
         out.extend(dump_tree(child, path + (tuple(key),)))
+    return out
+
+
+def fields_in_order(tree):
+    """the _Field objects in the order of dump_tree"""
+    out = list(tree.fields.values())
+    for child in tree.children.values():
+        out.extend(fields_in_order(child))
     return out
 
 
@@ -316,7 +333,9 @@ class Runner(object):
         self.ops = []
         self.dead = False         # after a RecursionError the tree is garbage
         self.hung = None          # (op index, where) of a call that did not return
-        self.pre_assign = []      # (op index, dump before assign_fields)
+        self.pre_assign = []      # (op index, dump before assign_fields [max_value as recorded by the implementation])
+        self.pre_accepted = {}    # op index -> the same dump with max = largest value of any ACCEPTED __call__ (or 1)
+        self.accepted = {}        # id(_Field) -> largest value given to it by a call that returned
         self.kept = []            # (tag set handed back earlier, what it held then)
         self.partner = None       # the other history of an interleaved pair
 
@@ -330,6 +349,14 @@ class Runner(object):
 
     def dump(self):
         return dump_tree(self.root.fields)
+
+    def dump_accepted(self, dump=None):
+        """the tree with max = what the values of the calls that RETURNED require (1 = the default of a new field):
+        the requirement side of the completeness clause; equals dump() whenever a rejected call leaves no trace"""
+        dump = self.dump() if dump is None else dump
+        objs = fields_in_order(self.root.fields)
+        assert len(objs) == len(dump)
+        return [dict(e, max=self.accepted.get(id(f), 1)) for e, f in zip(dump, objs)]
 
     def do(self, op):
         from harness import common
@@ -345,6 +372,7 @@ class Runner(object):
         if kind == "assign":
             pre = self.dump()
             self.pre_assign.append((len(self.ops) - 1, pre))
+            self.pre_accepted[len(self.ops) - 1] = self.dump_accepted(pre)
             hints = spare_hints(pre)
             op.pop("spare", None)
             if hints:
@@ -370,6 +398,9 @@ class Runner(object):
                     new = inst(**kw)
                     kw.clear()                       # the caller's dict is the caller's
                     self.insts.append(new)
+                    for i, v in new.field_values.items():
+                        fobj = self.root.fields.get_field(i, new.field_values)
+                        self.accepted[id(fobj)] = max(self.accepted.get(id(fobj), 1), int(v))
                     r = {"ok": [[i, _i(v)] for i, v in new.field_values.items()]}
                     if type(new) is not self.cls or new.fields is not self.root.fields or new.length != self.length:
                         r["derived"] = [type(new).__name__, new.fields is self.root.fields, _i(new.length)]
@@ -674,6 +705,74 @@ def gen_deep_history(rng):
             run.do({"op": "tags", "inst": i, "field": f})
             run.do({"op": rng.choice(["loc", "mask", "value"]), "inst": i, "tag": None, "field": f}
                    if rng.random() < 0.5 else {"op": "loc", "inst": i, "field": f})
+    if not run.dead:
+        finish(rng, run)
+    return seal(run)
+
+
+def accepted_tight_length(acc):
+    """the smallest bit field in which every root-to-leaf chain of the (nested) tree fits with the accepted widths"""
+    def width(e):
+        return e["length"] if e["length"] is not None else max(1, e["max"]).bit_length()
+    best = 0
+    for e in acc:
+        p = e["path"]
+        best = max(best, sum(width(x) for x in acc if x["path"] == p[:len(x["path"])]))
+    return best
+
+
+def gen_reject_history(rng):
+    """nothing positioned explicitly, nested scopes, several automatic-length fields; besides accepted calls, calls that
+    are REJECTED by a LATER keyword (negative value, value too large for a fixed-length field, unavailable / unknown
+    field) while EARLIER keywords carry values larger than anything accepted for automatic-length fields; the caller
+    then re-runs the history on the bit field that is exactly tight for the accepted values"""
+    USED_VALUES.clear()
+    run = new_runner(rng, 64)
+    autos, fixed = [], []
+    for nm in list("abcd")[:rng.randrange(2, 5)]:
+        ln = None if rng.random() < 0.7 else rng.choice([1, 2, 3])
+        if "ok" in run.do({"op": "add", "inst": 0, "ident": nm, "length": ln, "start": None,
+                           "tags": rng.sample(TAGS, rng.choice([0, 0, 1]))}):
+            (autos if ln is None else fixed).append(nm)
+    scopes = [(0, list(autos), list(fixed))]
+    if rng.random() < 0.5 and (autos or fixed):
+        sel = rng.choice(autos + fixed)
+        for v in rng.sample([0, 1], rng.choice([1, 2])):
+            if "ok" not in run.do({"op": "call", "inst": 0, "kw": [[sel, v]]}):
+                continue
+            i = len(run.insts) - 1
+            a2, f2 = [], []
+            for nm in ["x", "y"][:rng.randrange(1, 3)]:
+                ln = None if rng.random() < 0.7 else rng.choice([1, 2])
+                if "ok" in run.do({"op": "add", "inst": i, "ident": nm, "length": ln, "start": None, "tags": []}):
+                    (a2 if ln is None else f2).append(nm)
+            scopes.append((i, [n for n in autos if n != sel] + a2, [n for n in fixed if n != sel] + f2))
+
+    def small(nm, fx):
+        return rng.randrange(2 if nm in fx else 16)
+    for _ in range(rng.randrange(3, 9)):
+        if run.dead:
+            break
+        inst, au, fx = rng.choice(scopes)
+        pool = au + fx
+        if rng.random() < 0.45:                      # an accepted call
+            kw = [[nm, small(nm, fx)] for nm in rng.sample(pool, rng.randrange(1, len(pool) + 1))] if pool else []
+        else:                                        # big values first, then the keyword that gets the call rejected
+            big = [[nm, rng.choice([100, 200, 255, 1 << rng.randrange(5, 20)])]
+                   for nm in rng.sample(au, rng.randrange(1, len(au) + 1))] if au else []
+            rest = [nm for nm in pool if nm not in [b[0] for b in big]]
+            why = rng.choice(["negative", "too-large", "unknown", "unknown", "negative"])
+            if why == "too-large" and [n for n in rest if n in fx]:
+                bad = [rng.choice([n for n in rest if n in fx]), 8 + rng.randrange(3)]
+            elif why == "negative" and rest:
+                bad = [rng.choice(rest), -1 - rng.randrange(3)]
+            else:
+                bad = [rng.choice(["zz", "nosuch", "x", "y"]), rng.randrange(3)]
+            if bad[0] in [b[0] for b in big]:
+                bad = ["zz", 1]
+            ok_part = [[nm, small(nm, fx)] for nm in rest if nm != bad[0] and rng.random() < 0.3]
+            kw = big + ok_part + [bad]
+        run.do({"op": "call", "inst": inst, "kw": kw})
     if not run.dead:
         finish(rng, run)
     return seal(run)
@@ -1022,9 +1121,13 @@ def eval_runs(ctx, runs):
                 ask("invariant", ri, (oi, op["op"], "ok" in r), op="invariant", length=run.length, entries=st)
                 last = st
         for oi, pre in run.pre_assign:
+            # completeness is judged on what the ACCEPTED values require (a rejected call gave the field nothing)
+            acc = run.pre_accepted.get(oi, pre)
+            if acc != pre:
+                ctx.tag("max_value-differs-from-accepted-values")
             if (len(pre) <= 11 and all(e["start"] is None for e in pre)
-                    and all(e["length"] is not None or e["max"] < SPARE_FROM for e in pre)):
-                ask("floating", ri, oi, op="floating_fits", length=run.length, entries=pre)
+                    and all(e["length"] is not None or max(e["max"], a["max"]) < SPARE_FROM for e, a in zip(pre, acc))):
+                ask("floating", ri, oi, op="floating_fits", length=run.length, entries=acc)
         if not hasattr(run, "comp"):
             seal(run)
         comp, final = run.comp, run.final
@@ -1142,6 +1245,10 @@ def eval_runs(ctx, runs):
                 ctx.tag("bitfield_length_as_%s" % run.rootopts["lkind"])
         if run.partner is not None:
             ctx.tag("pair_%s" % run.partner.get("kind", "other"))
+        for o, r in zip(run.ops, run.results):
+            if o["op"] == "call" and "err" in r and len(o["kw"]) > 1 and any(
+                    isinstance(v, int) and v >= 100 for _, v in o["kw"][:-1]):
+                ctx.tag("rejected_call_with_large_earlier_value_%s" % r["err"])
         if getattr(run, "scale", None):
             ctx.tag("scale_%s" % run.scale)
         if any("" in e["tags"] for e in run.final):
@@ -1149,6 +1256,8 @@ def eval_runs(ctx, runs):
         st = run.final
         scopes = len({json.dumps(e["path"]) for e in st})
         assigned_ok = any(o["op"] == "assign" and "ok" in r for o, r in zip(run.ops, run.results))
+        if getattr(run, "tight_for_accepted", None) is not None:
+            ctx.tag("tight_for_accepted_%+d_assign_%s" % (run.tight_for_accepted, "ok" if assigned_ok else "raises"))
         if getattr(run, "deep", False):
             ctx.tag("deep_assign_%s" % ("ok" if assigned_ok else "raises"))
         for o, r in zip(run.ops, run.results):
@@ -1284,6 +1393,26 @@ def run(ctx):
             eval_runs(ctx, runs)
             runs = []
     ctx.tag("deep_histories_%d" % made_d)
+    # rejected calls that carry large values before the offending keyword, on bit fields exactly tight for what was accepted
+    n_rej = ctx.scale(300, 6000) * (4 if ctx.extended else 1)
+    made_r = 0
+    while made_r < n_rej and _HANGS[0] < 60:
+        run_ = gen_reject_history(rng)
+        runs.append(run_)
+        made_r += 1
+        if not run_.dead and run_.pre_assign:
+            # tight for what had been accepted when assign_fields was first called
+            tight = accepted_tight_length(run_.pre_accepted[run_.pre_assign[0][0]])
+            for L2 in ([tight] if rng.random() < 0.8 else [tight + 1, max(1, tight - 1)]):
+                if L2 >= 1:
+                    again = replay_ops(L2, run_.ops, run_.rootopts)
+                    again.tight_for_accepted = L2 - tight
+                    runs.append(again)
+                    made_r += 1
+        if len(runs) >= 1500:
+            eval_runs(ctx, runs)
+            runs = []
+    ctx.tag("reject_histories_%d" % made_r)
     batch = 2500
     made = 0
     while made < n and _HANGS[0] < 60:
